@@ -6,8 +6,9 @@ import random
 import common as C
 
 COQ_FILES = ("Base/Bytes.v", "Extracted/ConstStages.v", "L4_Eval/Stages.v", "L4_Eval/RunSmall.v", "L4_Eval/StageProofs.v",
-             "Properties/C15.v")
-EXTRACTED = ("ConstStages",)
+             "Properties/C15.v", "Base/PyRt.v", "Extracted/GenStages.v", "L4_Eval/GenStagesProofs.v", "Properties/C15g.v")
+PROPERTY_FILES = ("C15", "C15g")
+EXTRACTED = ("ConstStages", "GenStages")
 ALLOWED_AXIOMS = ()
 
 PRELUDE = """From Coq Require Import List String.
